@@ -149,6 +149,22 @@ func c16(p *P) {
 		}
 	}
 
+	// a gap in the store: GetRange returns the contiguous prefix together with ErrCertNotFound; the prefix is still served
+	if h := p.fn("C16.R1", "certexchange.Server.handleRequest"); h != nil {
+		wr := callSinks(h, "certificate written", "certs.FinalityCertificate.MarshalCBOR")
+		if len(wr) > 0 {
+			inj := errFails("", "certstore.Store.GetRange", "").with(callResult("", "errors.Is", `ErrCertNotFound`, -1, avTrue)).all(h)
+			s := RunSCCP(h, inj)
+			reach := false
+			for _, w := range wr {
+				if s.Reachable(w.Instr) {
+					reach = true
+				}
+			}
+			r.Check(reach, "C16.R1", "certexchange.Server.handleRequest: the stored prefix before a missing certificate is served", p.c.InstrPos(wr[0].Instr), "certificate write reachable when GetRange reports ErrCertNotFound", "when the range contains a missing certificate the server sends nothing although it advertises a later pending instance")
+		}
+	}
+
 	// ---------------- R3 client
 	if cl := p.fnWith("C16.R3", "certexchange.Client.Request", "certs.FinalityCertificate.UnmarshalCBOR"); cl != nil {
 		var sends []Sink
@@ -281,6 +297,44 @@ func c16(p *P) {
 				}
 			}
 			r.Check(found, "C16.R4", "polling.Poller.Poll: validation failure classifies the peer as illegal", p.c.Pos(poll.Pos()), "Status = PollIllegal on the failing edge", "no Status = PollIllegal store on the validation-failure path")
+		}
+	}
+	// invariant of the poller: PowerTable is the store's table FOR NextInstance. Wherever NextInstance is set from the
+	// store (construction, CatchUp) the table is loaded for that very instance, unconditionally.
+	for _, name := range []string{"certexchange/polling.NewPoller", "certexchange/polling.Poller.CatchUp"} {
+		fn := p.fn("C16.R4", name)
+		if fn == nil {
+			continue
+		}
+		nis, pts := fieldStores(fn, false, "Poller", "NextInstance"), fieldStores(fn, false, "Poller", "PowerTable")
+		if len(nis) == 0 || len(pts) == 0 {
+			r.Undecided("C16.R4", name+": NextInstance/PowerTable pair", fmt.Sprintf("stores not found (%d/%d)", len(nis), len(pts)))
+			continue
+		}
+		for _, ni := range nis {
+			ok, why := false, "no PowerTable store"
+			for _, pt := range pts {
+				ex, _ := pt.Store.Val.(*ssa.Extract)
+				var call *ssa.Call
+				if ex != nil {
+					call, _ = ex.Tuple.(*ssa.Call)
+				}
+				if call == nil || call.Call.StaticCallee() == nil || funcName(call.Call.StaticCallee()) != "certstore.Store.GetPowerTable" || len(call.Call.Args) < 3 {
+					why = "PowerTable is " + canon(pt.Store.Val)
+					continue
+				}
+				same := call.Call.Args[2] == ni.Store.Val || canon(call.Call.Args[2]) == canon(ni.Store.Val)
+				together := pt.Store.Block() == ni.Store.Block() || dominates(pt.Store, ni.Store)
+				switch {
+				case !same:
+					why = "table loaded for instance " + canon(call.Call.Args[2]) + " but NextInstance is " + canon(ni.Store.Val)
+				case !together:
+					why = "NextInstance can be set on a path where the table is not reloaded"
+				default:
+					ok = true
+				}
+			}
+			r.Check(ok, "C16.R4", name+": PowerTable := store table for the very instance NextInstance is set to, on every path", p.c.InstrPos(ni.Store), "GetPowerTable(NextInstance)", why+" — later certificates would be validated against a stale power table (a forged certificate signed by a rotated-out key is stored; honest peers are branded illegal)")
 		}
 	}
 	if cu := p.fn("C16.R4", "certexchange/polling.Poller.CatchUp"); cu != nil {
